@@ -44,11 +44,7 @@ where
         match self.inner.read_record(&self.header, &mut self.buf) {
             Ok(0) => ReadStatus::Done,
             Ok(_) => {
-                let result = self
-                    .buf
-                    .genotypes()
-                    .genotypes()
-                    .map_err(|e| io::Error::new(io::ErrorKind::InvalidData, e));
+                let result = genotypes_from_vcf(self.buf.genotypes());
 
                 match result {
                     Ok(genotypes) => ReadStatus::Read(genotypes),
@@ -58,6 +54,25 @@ where
             Err(e) => ReadStatus::Error(e),
         }
     }
+}
+
+/// Returns the genotype of each sample.
+///
+/// A sample without a `GT` value - including a `GT` value of `.` next to other format fields,
+/// e.g. `.:7` - has no genotype and yields `None`, rather than failing the whole record.
+pub(super) fn genotypes_from_vcf(
+    genotypes: &vcf::record::Genotypes,
+) -> io::Result<Vec<Option<VcfGenotype>>> {
+    genotypes
+        .values()
+        .map(|sample| match sample.get(&vcf::record::genotypes::keys::key::GENOTYPE) {
+            Some(None) | None => Ok(None),
+            Some(Some(_)) => sample
+                .genotype()
+                .transpose()
+                .map_err(|e| io::Error::new(io::ErrorKind::InvalidData, e)),
+        })
+        .collect()
 }
 
 impl<R> super::Reader for Reader<R>
